@@ -10,7 +10,7 @@ from pyvc.core import Val, SeqV, Undecided
 from pyvc import exec as E, builtins as B, calls
 
 M = 'slimta/envelope/__init__.py'
-klass('Envelope', fields={'message': 'Opt[Bytes]'})
+klass('Envelope', fields={'message': 'Opt[Bytes]'}, module=M)
 klass('HBPattern')
 klass('HBMatch', fields={'e0': 'Int'})
 global_object('_HEADER_BOUNDARY', 'HBPattern')
